@@ -18,6 +18,7 @@ import (
 // C02: file handles behave like os.File.
 
 type c02case struct {
+	NoProbe bool       `json:"no_probe,omitempty"` // handle offsets are probed (with Seek) only after the last call: the probe itself is a call the handle sees
 	Path    string     `json:"path,omitempty"` // the file the script works on: "f" (exists) or "n" (created by the first Open)
 	Name    string     `json:"name"`
 	Subject string     `json:"subject"`
@@ -86,6 +87,26 @@ func c02build() {
 				c02matrix = append(c02matrix, c02case{Path: "n", Name: kind + "/" + op.K + "/other-grew", Subject: "mem", Steps: append(append([]fsx.Step(nil), fill...), other, fsx.Step{K: "H.WriteAt", Slot: 1, Data: "GROWN", Off: 10}, op, fsx.Step{K: "H.Stat", Slot: 0})})
 			}
 		}
+		// a handle that has reported end-of-file keeps reading when the file grows afterwards (by any means)
+		for _, kind := range []string{"ro", "rw", "rw+app"} {
+			eof := []fsx.Step{c02open(0, kind), {K: "H.Read", Slot: 0, N: 100}, {K: "H.Read", Slot: 0, N: 4}}
+			after := []fsx.Step{{K: "H.Read", Slot: 0, N: 8}, {K: "H.Read", Slot: 0, N: 100}, {K: "H.Stat", Slot: 0}}
+			grows := map[string][]fsx.Step{
+				"other-writeat":  {c02open(1, "rw"), {K: "H.WriteAt", Slot: 1, Data: "GROWN", Off: int64(len(init))}},
+				"other-append":   {c02open(1, "wo+app"), {K: "H.Write", Slot: 1, Data: "APPENDED"}},
+				"other-truncate": {c02open(1, "rw"), {K: "H.Truncate", Slot: 1, Off: int64(len(init)) + 7}},
+				"rewrite":        {{K: "WriteFullFile", P: "f", Data: init + "-and-more", Perm: 0o644}},
+			}
+			if kind != "ro" {
+				grows["own-writeat"] = []fsx.Step{{K: "H.WriteAt", Slot: 0, Data: "OWN", Off: int64(len(init)) + 2}}
+				grows["own-truncate"] = []fsx.Step{{K: "H.Truncate", Slot: 0, Off: int64(len(init)) + 5}}
+			}
+			for name, g := range grows {
+				steps := append(append(append([]fsx.Step(nil), eof...), g...), after...)
+				c02matrix = append(c02matrix, c02case{Name: kind + "/read-after-eof/" + name, Subject: "mem", Init: init, Steps: steps, NoProbe: true})
+				c02matrix = append(c02matrix, c02case{Name: kind + "/read-after-eof/" + name + "/probed", Subject: "mem", Init: init, Steps: steps})
+			}
+		}
 		for _, kind := range c02kindNames {
 			for _, op := range c02ops(0, len(init)) {
 				// (a) fresh handle moved to offset 3, (b) the same after another handle grew the file, (c) after another handle shrank it
@@ -112,7 +133,7 @@ func init() {
 		Level: "exploration",
 		Rule: "differential runtime monitor against *os.File: scripts of Read/ReadAt/Write/WriteAt/Seek/Truncate/Stat/Close on 1..3 handles opened on one file (and a directory handle) with generated flag sets run on the os package and on mem.FS (multi-handle) / keyvalue.FS over a plain Store (single handle); after every call n, bytes, success/failure (EOF normalised as io.Reader/io.ReaderAt allow), every open handle's offset and Stat size, and the file's fresh contents are compared. " +
 			"Cases: the handle matrix (9 handle kinds x every call x argument classes around offset/size, also after another handle grew or shrank the file) and random scripts of up to 40 (80 thorough) calls. Non-trivial: the script wrote through one handle and read or stat'ed through another, or hit end-of-file; distinct by script text",
-		Assumptions: []string{"reference = *os.File on Linux tmpfs", "handle offsets are probed with Seek(0, SeekCurrent) on regular-file handles", "keyvalue.FS over a plain Store hands every handle its own snapshot (FileRecord contract), so only single-handle scripts run there"},
+		Assumptions: []string{"reference = *os.File on Linux tmpfs", "handle offsets are probed with Seek(0, SeekCurrent) on regular-file handles after every call; because the probe is itself a call the handle sees, a quarter of the random scripts and the read-after-EOF cases probe only after the last call", "keyvalue.FS over a plain Store hands every handle its own snapshot (FileRecord contract), so only single-handle scripts run there"},
 		NumCases:    func(env *core.Env) int { m, r := c02layout(env); return m + r },
 		Batch:       150,
 		Run:         c02run,
@@ -135,6 +156,7 @@ func c02random(env *core.Env, idx int) c02case {
 	if idx%12 == 5 {
 		cs.Subject = "os" // every twelfth script also runs on the library's os.FS
 	}
+	cs.NoProbe = idx%4 == 1 // a quarter of the scripts run without the per-call Seek probes
 	l := r.Intn(16)
 	if r.Intn(10) == 0 {
 		l = 100 + r.Intn(5000)
@@ -459,6 +481,9 @@ func c02run(env *core.Env, idx int) core.CaseResult {
 		}
 		offsetBad := false
 		for slot, k := range kinds {
+			if cs.NoProbe && i < len(cs.Steps)-1 {
+				break
+			}
 			if k == "dir" || closed[slot] || slot >= len(R.hs.F) || slot >= len(S.hs.F) || R.hs.F[slot] == nil || S.hs.F[slot] == nil {
 				continue
 			}
